@@ -49,8 +49,8 @@ def confirm(pid, m, src=None, name=None):
     return ok
 
 
-def detect(name, checks=None):
-    d = os.path.join(ROOT, "seeded", name)
+def detect(name, checks=None, base="seeded"):
+    d = os.path.join(ROOT, base, name)
     pid = name.split("_")[0]
     checks = checks or [pid]
     rc, out = sh("git -C /repo status --porcelain")
@@ -76,7 +76,12 @@ def detect(name, checks=None):
         for p, txt in saved.items():
             if txt is not None:
                 open(p, "w").write(txt)
-    json.dump(res, open(os.path.join(d, "detect.json"), "w"), indent=1)
+    dj = os.path.join(d, "detect.json")
+    if os.path.exists(dj):        # keep the results of checks not re-run now (cross-checks by neighbouring properties)
+        old = json.load(open(dj))
+        old.update(res)
+        res = old
+    json.dump(res, open(dj, "w"), indent=1)
     print(name, json.dumps(res)[:700])
 
 
